@@ -2,5 +2,9 @@ CONSTANTS
   Dev = {}
   Big = FALSE
 SPECIFICATION Spec
+INVARIANT PlainIsUncompressed
+INVARIANT PlainImpliesSkip
+INVARIANT PlainRecordAgrees
+INVARIANT NewRuleStricterP
 INVARIANT EmitCodec
 CHECK_DEADLOCK FALSE
